@@ -65,4 +65,30 @@ def delist (F : Facts) (l : Listing) (historic : List Nat) : Listing :=
   { current := if F.vacuumFinishesRetire then l.current.filter fun v => !historic.contains v else l.current,
     merged := l.merged.filter fun v => !historic.contains v }
 
+/-! ### which versions vacuum removes
+
+`getHistoricRootsAndNodes`: a version is removed iff it has children in the graph and none of
+them is "too new" (`versionCutoff`: created after the cutoff, or undated).  Creation times are
+the commit times of the versions (`versionsDatedAtCommit`). -/
+
+structure VGraph where
+  versions : List Nat
+  parents : Nat → List Nat          -- merge sources of a version
+  created : Nat → Int
+
+def VGraph.children (g : VGraph) (p : Nat) : List Nat :=
+  g.versions.filter fun c => (g.parents c).contains p
+
+/-- how the source decides that a child keeps its parent; `none` for an unknown text -/
+def tooNew (F : Facts) (created cutoff : Int) : Option Bool :=
+  if F.versionCutoff = "childRoot.Created == nil || childRoot.Created.After(olderThan)" then
+    some (decide (created > cutoff))
+  else if F.versionCutoff = "childRoot.Created == nil || !childRoot.Created.Before(olderThan)" then
+    some (decide (created ≥ cutoff))
+  else none
+
+/-- the versions whose objects vacuum deletes -/
+def removed (F : Facts) (g : VGraph) (cutoff : Int) (p : Nat) : Bool :=
+  !(g.children p).isEmpty && (g.children p).all fun c => !((tooNew F (g.created c) cutoff).getD true)
+
 end S3db.Vacuum
